@@ -272,18 +272,33 @@ func (s *Shell) handleWINCH(ctx context.Context) error {
 /* handleOutput handles reading from s.och and writing to s.t */
 func (s *Shell) handleOutput(ctx context.Context) error {
 	var (
-		cl CLine
-		ok bool
+		cl   CLine
+		ok   bool
+		left = -1 /* Lines left to show after ctx is done. */
 	)
 	for {
-		/* Try to grab some output. */
-		select {
-		case <-ctx.Done():
+		/* Try to grab some output.  When we're told to stop, what's
+		already been queued for us is still shown, lest the last of a
+		shell's output and the word that it's gone be lost. */
+		if 0 == left {
 			return context.Cause(ctx)
-		case cl, ok = <-s.och:
-			if !ok {
-				return ErrOutputClosed
+		} else if 0 < left {
+			left--
+			select {
+			case cl, ok = <-s.och:
+			default:
+				return context.Cause(ctx)
 			}
+		} else {
+			select {
+			case <-ctx.Done():
+				left = len(s.och)
+				continue
+			case cl, ok = <-s.och:
+			}
+		}
+		if !ok {
+			return ErrOutputClosed
 		}
 		/* Set the prompt if we have one. */
 		if p := cl.Prompt; "" != p {
